@@ -138,6 +138,26 @@ Theorem C18_exclusive_no_lost_update : forall wr reqs f0 sched,
 Proof. exact no_lost_update. Qed.
 Print Assumptions C18_exclusive_no_lost_update.
 
+(* THE TAG SERVED WITH A DEFINITION IS THE TAG OF THAT DEFINITION.  A reader
+   (GetDescription, GetSanitisedDescription, the GET handlers) takes the
+   definition and the stamp from ONE open file ([read_description] is one step
+   of the model -- an explicit assumption about readDescription, checked on
+   the implementation by the monitor C18.content_matches_tag).  Then, in
+   every run: what a reader gets is a version that was written together with
+   the tag of that very version, and among all versions that ever existed a
+   tag belongs to one definition only. *)
+Theorem C18_content_matches_tag : forall wr reqs f0 sched,
+  Fresh f0 sched ->
+  let w := run wr reqs f0 sched in
+  (forall c t, read_description (w_file w) = Some (c, t) ->
+     exists s, In (Some (c, s)) (versions f0 (w_log w)) /\ t = make_etag s) /\
+  (forall c1 s1 c2 s2,
+     In (Some (c1, s1)) (versions f0 (w_log w)) ->
+     In (Some (c2, s2)) (versions f0 (w_log w)) ->
+     make_etag s1 = make_etag s2 -> c1 = c2 /\ s1 = s2).
+Proof. exact content_matches_tag. Qed.
+Print Assumptions C18_content_matches_tag.
+
 (* CREATE ONCE.  A write carrying "If-None-Match: *" (any value every existing
    object matches) is acknowledged only if its object did not exist at the
    moment of the locked update; needs no hypothesis on stamps. *)
